@@ -741,7 +741,7 @@ func ruleReportWithRemoval(c *Ctx, rule string) {
 				switch {
 				case holds(held, k.lock, true):
 					c.OK(rule, fname(fn), k.name, w.instrPos(in), "reported inside the hold of "+k.lock+" in which the entry is removed")
-				case w.domHit(in, isRemoval):
+				case w.domHit(in, isRemoval) || everyPathPassesBefore(w, fn, in, isRemoval):
 					c.OK(rule, fname(fn), k.name, w.instrPos(in), "reported after the entry has been removed from "+k.table)
 				default:
 					c.Bad(rule, fname(fn), k.name, w.instrPos(in), "the deleted-event is reported before the entry is removed and without "+k.lock+" (held: {"+held.str()+"}): a refresh that arrives while the handler runs finds the dying entry, is answered with success, and the entry is removed all the same")
@@ -749,4 +749,29 @@ func ruleReportWithRemoval(c *Ctx, rule string) {
 			})
 		}
 	}
+}
+
+// everyPathPassesBefore: on every feasible path of fn (what the path learns about conditions is
+// used: `if found == nil { return }` after a loop that sets found where it removes) that
+// reaches instruction at, an instruction accepted by hit was executed before.
+func everyPathPassesBefore(w *World, fn *ssa.Function, at ssa.Instruction, hit func(ssa.Instruction) bool) bool {
+	if at.Parent() != fn {
+		return false
+	}
+	ok := true
+	reached := false
+	cfg := &ipCfg[bool]{w: w}
+	cfg.Inline = func(ssa.CallInstruction, *ssa.Function) bool { return false }
+	cfg.Step = func(in ssa.Instruction, done bool, _ *pathEnv, _ []ssa.CallInstruction) bool {
+		if in == at {
+			reached = true
+			if !done {
+				ok = false
+			}
+		}
+		return done || hit(in)
+	}
+	cfg.Return = func(*ssa.Return, bool, *pathEnv) {}
+	explorePaths(cfg, fn, false)
+	return ok && reached && !cfg.Exhausted
 }
